@@ -217,6 +217,173 @@ theorem C02_opstamp_monotone_partial [DecidableEq α] (n : Nat) (es : List (Even
     exact ⟨hinv.pairsLt, hinv.logLt, rfl, rfl, rfl⟩
   · cases hc
 
+/-! ## the model evaluates the comparisons found in the source -/
+
+/-- **C02_extracted_guards.**  The four opstamp comparisons of the delete machinery, as the
+extractor reads them from the Rust source on every run (`Gen/WriterGuards.lean`), are the ones the
+refinement proof is made for: `doc_opstamp < delete_opstamp` (`is_deleted`),
+`operation.opstamp < target` (`skip_to`), `delete_op.opstamp > target` (the `break` of
+`compute_deleted_bitset`) and `delete_operation.opstamp < committed_opstamp` (the catch-up of
+`end_merge`).  The executable model uses the extracted operators; a change of one of them (e.g.
+`<=` in the catch-up: a re-opened writer's first delete, stamped with the commit opstamp, would be
+published by `end_merge`) makes this theorem - and the equations in `Proofs/Writer.lean` every
+other theorem rests on - fail to check. -/
+theorem C02_extracted_guards :
+    Gen.IS_DELETED_CMP = 0 ∧ Gen.SKIP_TO_CMP = 0 ∧ Gen.COMPUTE_DELETED_BREAK_CMP = 2 ∧ Gen.END_MERGE_CATCHUP_CMP = 0
+    ∧ (∀ a b, isDeletedGuard a b = decide (a < b)) ∧ (∀ a b, behindGuard a b = decide (a < b))
+    ∧ (∀ a b, breakGuard a b = decide (a > b)) ∧ (∀ a b, catchUpGuard a b = decide (a < b)) :=
+  ⟨rfl, rfl, rfl, rfl, isDeletedGuard_eq, behindGuard_eq, breakGuard_eq, catchUpGuard_eq⟩
+
+/-- with `<=` in the catch-up guard a delete stamped exactly with the commit opstamp is applied to
+the merged segment (what the seeded change C02-C does), with `<` it is not -/
+example : cmpCode 1 5 5 = true ∧ cmpCode Gen.END_MERGE_CATCHUP_CMP 5 5 = false := by decide
+
+/-! ## the delete-cursor discipline, for every segment and every merged entry -/
+
+/-- **C02_cursor_discipline_invariant.**  In every run as in `C02_commit_refines_replay_partial`:
+* every finished segment (waiting for the updater, uncommitted, committed) satisfies `SegOK`: its
+  alive bits are exactly the opstamp rule for the deletes *before* its cursor, and every delete at
+  or after its cursor is younger than all its documents (so applying it without per-document
+  opstamps is the rule);
+* every segment under construction satisfies `BuildOK` (its `skip_to` skipped only deletes older
+  than all its documents);
+* every committed segment's cursor sits exactly at the last commit (`CommittedAt`);
+* every merged entry in flight whose sources are still registered is a finished segment in that
+  sense, all its documents alive, **its cursor the common cursor of its advanced sources**
+  (`merge` clones the cursor after `advance_deletes`) - the documents it holds are exactly the
+  source documents alive under the deletes before that cursor. -/
+theorem C02_cursor_discipline_invariant [DecidableEq α] (n : Nat) (es : List (Event α)) (s : WState α)
+    (hrun : run (WState.init n) es = some s) (hok : okRun2 (WState.init n) es) :
+    (∀ sg ∈ s.inflight ++ s.uncommitted ++ s.committed, SegOK s.log sg)
+    ∧ (∀ w ∈ s.workers, ∀ sg, w.seg = some sg → BuildOK s.log sg ∧ sg.cursor = w.cur)
+    ∧ (∀ sg ∈ s.committed, CommittedAt s.log s.metas.opstamp sg)
+    ∧ (∀ m ∈ s.merges, present m.ids (s.uncommitted ++ s.committed) → ∀ M, m.result = some M →
+        SegOK s.log M ∧ (∀ d ∈ M.docs, d.alive = true)
+        ∧ List.Perm (segPairs M) (((srcsOf m.ids (s.uncommitted ++ s.committed)).flatMap segPairs).filter
+            (fun p => !dead (s.log.take M.cursor) p))) := by
+  obtain ⟨hw, hm⟩ := inv_run2 (WState.init n) s SpecState.init es (inv_init n) (minv_init n) hok hrun
+  refine ⟨hw.segs, fun w hw' => (hw.workers w hw').2.2, hm.cis, ?_⟩
+  intro m hmem hp M hr
+  obtain ⟨c, _, _, g⟩ := hm.good m hmem hp
+  simp only [hr] at g
+  obtain ⟨g0, g1, g2, g3⟩ := g
+  subst g0
+  exact ⟨g1, g2, g3⟩
+
+/-! ## opstamps -/
+
+/-- events that return the stamp they draw -/
+def stampedApi : Event α → Bool
+  | .add _ => true
+  | .del _ => true
+  | .batch _ => true
+  | .commit _ => true
+  | .prepare => true
+  | _ => false
+
+/-- events that do not move the stamper backwards (all but `delete_all_documents`, which reverts
+it, and `rollback`, which restarts it at the last commit) -/
+def keepsStamper : Event α → Bool
+  | .deleteAll => false
+  | .rollback => false
+  | _ => true
+
+theorem C02_step_opstamps (s s' : WState α) (e : Event α) (r : Nat) (h : step s e = some (s', r)) :
+    (keepsStamper e = true → s.stamper ≤ s'.stamper)
+    ∧ (stampedApi e = true → s.stamper ≤ r ∧ r < s'.stamper) := by
+  cases e with
+  | add d => simp only [step, Option.some.injEq, Prod.mk.injEq] at h; obtain ⟨rfl, rfl⟩ := h; simp
+  | del q => simp only [step, Option.some.injEq, Prod.mk.injEq] at h; obtain ⟨rfl, rfl⟩ := h; simp
+  | batch items =>
+    simp only [step, batch_fold, List.nil_append, Option.some.injEq, Prod.mk.injEq] at h
+    obtain ⟨rfl, rfl⟩ := h
+    simp; omega
+  | deleteAll => simp [keepsStamper, stampedApi]
+  | rollback => simp [keepsStamper, stampedApi]
+  | commit p =>
+    simp only [step] at h
+    split at h
+    · simp only [Option.some.injEq, Prod.mk.injEq] at h; obtain ⟨rfl, rfl⟩ := h; simp [saveMetas]
+    · cases h
+  | prepare =>
+    simp only [step] at h
+    split at h
+    · simp only [Option.some.injEq, Prod.mk.injEq] at h; obtain ⟨rfl, rfl⟩ := h; simp
+    · cases h
+  | recv w =>
+    refine ⟨fun _ => ?_, by simp [stampedApi]⟩
+    simp only [step] at h
+    split at h
+    · split at h
+      · split at h
+        · cases h
+        · simp only [Option.some.injEq, Prod.mk.injEq] at h; obtain ⟨rfl, _⟩ := h; exact Nat.le_refl _
+      · simp only [Option.some.injEq, Prod.mk.injEq] at h; obtain ⟨rfl, _⟩ := h; exact Nat.le_refl _
+    · cases h
+  | cut w =>
+    refine ⟨fun _ => ?_, by simp [stampedApi]⟩
+    simp only [step] at h
+    split at h
+    · split at h
+      · simp only [Option.some.injEq, Prod.mk.injEq] at h; obtain ⟨rfl, _⟩ := h; exact Nat.le_refl _
+      · cases h
+    · cases h
+  | register =>
+    refine ⟨fun _ => ?_, by simp [stampedApi]⟩
+    simp only [step] at h
+    split at h
+    · simp only [Option.some.injEq, Prod.mk.injEq] at h; obtain ⟨rfl, _⟩ := h; exact Nat.le_refl _
+    · cases h
+  | tick => simp only [step, Option.some.injEq, Prod.mk.injEq] at h; obtain ⟨rfl, _⟩ := h; simp [stampedApi]
+  | flush => simp only [step, Option.some.injEq, Prod.mk.injEq] at h; obtain ⟨rfl, _⟩ := h; simp [stampedApi]
+  | mergeStart ids policy =>
+    refine ⟨fun _ => ?_, by simp [stampedApi]⟩
+    simp only [step] at h
+    split at h
+    · cases h
+    · split at h
+      · simp only [Option.some.injEq, Prod.mk.injEq] at h; obtain ⟨rfl, _⟩ := h
+        show s.stamper ≤ s.stamper + 1; omega
+      · split at h
+        · simp only [Option.some.injEq, Prod.mk.injEq] at h; obtain ⟨rfl, _⟩ := h; exact Nat.le_refl _
+        · cases h
+  | mergeEnd k =>
+    refine ⟨fun _ => ?_, by simp [stampedApi]⟩
+    simp only [step] at h
+    split at h
+    · cases h
+    · split at h
+      · simp only [Option.some.injEq, Prod.mk.injEq] at h; obtain ⟨rfl, _⟩ := h; exact Nat.le_refl _
+      · split at h
+        · simp only [Option.some.injEq, Prod.mk.injEq] at h; obtain ⟨rfl, _⟩ := h; exact Nat.le_refl _
+        · simp only [Option.some.injEq, Prod.mk.injEq] at h; obtain ⟨rfl, _⟩ := h; exact Nat.le_refl _
+
+theorem C02_run_stamper_mono (s s' : WState α) (es : List (Event α)) (h : run s es = some s')
+    (hk : es.all keepsStamper = true) : s.stamper ≤ s'.stamper := by
+  induction es generalizing s with
+  | nil => simp only [run, Option.some.injEq] at h; subst h; exact Nat.le_refl _
+  | cons e es ih =>
+    simp only [List.all_cons, Bool.and_eq_true] at hk
+    simp only [run] at h
+    split at h
+    · rename_i s1 r hs
+      exact Nat.le_trans ((C02_step_opstamps s s1 e r hs).1 hk.1) (ih s1 h hk.2)
+    · cases h
+
+/-- **C02_returned_opstamps_increase.**  For any number of workers, any schedule of the internal
+events and any merges: between two API calls that return a stamp (`add_document`, `delete_*`,
+`run`, `prepare_commit`, `commit`), if no `delete_all_documents` and no `rollback` happens in
+between, the later call returns a strictly larger opstamp - whatever happened before (re-opened
+writer included).  Together with `C02_opstamp_monotone_partial`: the opstamp of a commit exceeds
+that of every operation it includes and is what `meta.json` holds. -/
+theorem C02_returned_opstamps_increase (s s1 s2 s3 : WState α) (e1 e2 : Event α) (mid : List (Event α)) (r1 r2 : Nat)
+    (h1 : step s e1 = some (s1, r1)) (hmid : run s1 mid = some s2) (h2 : step s2 e2 = some (s3, r2))
+    (hs1 : stampedApi e1 = true) (hs2 : stampedApi e2 = true) (hk : mid.all keepsStamper = true) : r1 < r2 := by
+  have a := (C02_step_opstamps s s1 e1 r1 h1).2 hs1
+  have b := C02_run_stamper_mono s1 s2 mid hmid hk
+  have c := (C02_step_opstamps s2 s3 e2 r2 h2).2 hs2
+  omega
+
 /-! ## rollback -/
 
 /-- **C02_rollback_restores**: after `rollback` (also `abort`, drop + reopen) the writer is a new
@@ -372,6 +539,13 @@ example :
     (run (WState.init 1) ([.add 1, .recv 0, .cut 0, .register, .add 2, .recv 0, .cut 0, .register,
       .mergeStart [0, 1] true, .commit none, .mergeEnd 0, .rollback, .deleteAll, .add 3] : List (Event Nat))).map
       (fun s => (published s, s.merges.length, s.committed.length)) = some ([1, 2], 0, 0) := by decide
+-- returned opstamps on a run with a re-opened writer, a tick and a merge in between
+example :
+    let s0 : WState Nat := WState.init 2
+    (do let (s1, r1) ← step s0 (.add 1)
+        let s2 ← run s1 [.recv 0, .tick, .cut 0, .register, .add 2, .recv 1, .cut 1, .register, .mergeStart [0, 1] true]
+        let (_, r2) ← step s2 (.commit none)
+        pure (r1, r2)) = some (0, 4) := by decide
 example : cleanState (WState.init 2 : WState Nat) := by
   refine ⟨rfl, rfl, rfl, rfl, ?_⟩
   intro w hw
